@@ -1177,6 +1177,11 @@ class ManagerCorr(Corr):
                     "dtype": rng.choice(["float64", "float32"]), "inner": rng.choice(["tuples", "lists"])}
             if in_map:
                 case["map"] = tf
+            elif fc is not None and len(gts) >= 2 and i % 5 in (1, 3):
+                # target_uuids on the frame configuration (round 5 of DESIGN section 9): only the listed objects are evaluated for detection
+                # and cut out of the reported non-detection arrays by the FRAME scales, while the manager's own crop still removes the
+                # rows inside EVERY object's box (scaled with the manager's parameters)
+                case["targets"] = sorted(rng.sample(range(len(gts)), rng.randint(1, len(gts) - 1)))
             out.append(case)
         return out
 
@@ -1216,7 +1221,8 @@ class ManagerCorr(Corr):
         if fcfg is None:
             res = m.add_frame_result(0, FrameGroundTruth(0, "0", objs), pc, areas)
         else:
-            fc = SensingFrameConfig(target_uuids=None, box_scale_0m=fcfg["s0"], box_scale_100m=fcfg["s100"], min_points_threshold=fcfg["min_points"])
+            tu = None if case.get("targets") is None else [str(i) for i in case["targets"]]
+            fc = SensingFrameConfig(target_uuids=tu, box_scale_0m=fcfg["s0"], box_scale_100m=fcfg["s100"], min_points_threshold=fcfg["min_points"])
             res = m.add_frame_result(0, FrameGroundTruth(0, "0", objs), pc, areas, fc)
         appended = len(m.frame_results) - n_before
         stored = appended == 1 and m.frame_results[-1] is res
@@ -1226,8 +1232,15 @@ class ManagerCorr(Corr):
             idx = rows_to_idx(case["cloud"], a)
             nd.append(idx if idx is not None else [-1])
         used = res.sensing_frame_config        # the configuration the frame was evaluated with (the manager's own when none was given)
+        all_objs = objs
+        if case.get("targets") is not None:    # results are identified within the sub-list of target objects (the documented selection)
+            objs = [objs[i] for i in case["targets"]]
+            foreign = [r for k in ("detection_success_results", "detection_fail_results", "detection_warning_results") for r in getattr(res, k)
+                       if not any(o is r.ground_truth_object for o in objs)]
+            if foreign:
+                return {"cropped": rows, "foreign": len(foreign), "dists": [float(o.get_distance()) for o in all_objs]}
         return {"cropped": rows, "scales": [float(used.get_scale_factor(o.get_distance())) for o in objs],
-                "dists": [float(o.get_distance()) for o in objs],
+                "dists": [float(o.get_distance()) for o in all_objs],
                 "success": [res_obs(r, objs, case["cloud"]) for r in res.detection_success_results],
                 "fail": [res_obs(r, objs, case["cloud"]) for r in res.detection_fail_results],
                 "warning": [res_obs(r, objs, case["cloud"]) for r in res.detection_warning_results],
@@ -1242,6 +1255,8 @@ class ManagerCorr(Corr):
         if obs["cropped"] is None:
             gts = llit([c_gt(g, 0) for g in case["gts"]])
             return f"check_manager {case['ncols']} {cfg} {gts} {cloud} {areas} None"
+        if obs.get("foreign"):
+            return "false"
         if any(-1 in r for r in obs["cropped"] + obs.get("nondet_rows", [])) or any(-1 in r["rows"] for k in ("success", "fail", "warning") for r in obs.get(k, [])):
             return "false"
         gts = llit([c_gt(g, d) for g, d in zip(case["gts"], obs["dists"])])
@@ -1261,8 +1276,9 @@ class ManagerCorr(Corr):
                 continue
             nd_local.append([obs["cropped"][ptr].index(i) for i in r])
             ptr += 1
+        gts_f = gts if case.get("targets") is None else llit([c_gt(case["gts"][i], obs["dists"][i]) for i in case["targets"]])
         return (f"(check_manager {case['ncols']} {cfg} {gts} {cloud} {areas} {crop} && "
-                f"check_frame {fcfg} {gts} {cloud} {pcs} {llit([qlit(s) for s in obs['scales']])} "
+                f"check_frame {fcfg} {gts_f} {cloud} {pcs} {llit([qlit(s) for s in obs['scales']])} "
                 f"{llit([c_res(r) for r in obs['success']])} {llit([c_res(r) for r in obs['fail']])} {llit([c_res(r) for r in obs['warning']])} "
                 f"{llit([c_nats(r) for r in nd_local])})")
 
@@ -1299,6 +1315,11 @@ class ManagerCorr(Corr):
                 if abs(F(d) - exact_distance(g)) > TOL:
                     return f"object {i} (MAP frame): get_distance(transforms) = {d}, the object is {float(exact_distance(g))} from the ego vehicle"
             return None
+        if obs.get("foreign"):
+            return f"add_frame_result with target_uuids {case.get('targets')}: {obs['foreign']} detection result(s) refer to objects that are no targets"
+        if case.get("targets") is not None:      # evaluate_frame sees the target objects only
+            gts = [gts[i] for i in case["targets"]]
+            kf = [kf[i] for i in case["targets"]]
         want_nd = [[i for i in r if not any(box_inside(g, k, case["cloud"][i]) for g, k in zip(gts, kf))] for r in want]
         if obs["nondet_rows"] != [r for r in want_nd if r]:
             return ("add_frame_result: pointcloud_failed_non_detection is not the list of non-empty remainders (rows of the manager's arrays outside "
@@ -1323,6 +1344,7 @@ class ManagerCorr(Corr):
             d["objects"] += len(c["gts"])
             d["points"] += len(c["cloud"])
             d["frame_config"][c.get("mode", "same")] += 1
+            d["frame_config_with_target_uuids(strict_subset)"] = d.get("frame_config_with_target_uuids(strict_subset)", 0) + (c.get("targets") is not None)
             d["cloud_dtype"][c.get("dtype", "float64")] += 1
             d["area_vertices_as"][c.get("inner", "tuples")] += 1
             d["objects_high_above_or_below_the_ego"] = d.get("objects_high_above_or_below_the_ego", 0) + sum(1 for g in c["gts"] if g.get("elevated"))
